@@ -48,6 +48,7 @@ pub fn c04() -> Outcome {
         if r2 < rs.len() { map.insert(ids[1], rs[r2].clone()); }
         n += 1; d.insert((0, fi, r1, r2, which));
         if fi == 3 && r1 == 2 && r2 == 4 { note(|| format!("Function::substitute f={f:?} with {map:?}")); }
+        trace(|| format!("Function::substitute f={f:?} with {map:?}"));
         let g = match f.substitute(&map) { Ok(g) => g, Err(e) => fail!(n, d, "Function::substitute failed ({e}): f={f:?} map={map:?}") };
         for s in states5() {
             let mut s2 = s.clone();
@@ -265,6 +266,13 @@ pub fn c11() -> Outcome {
         ("maximisation", { let mut i = base(); i.sense = v1::instance::Sense::Maximize as i32; i }),
         ("integer variable used", { let mut i = base(); i.decision_variables[2] = dv(3, Kind::Integer, Some((0.0, 1.0))); i }),
         ("continuous variable used", { let mut i = base(); i.decision_variables[0] = dv(1, Kind::Continuous, Some((0.0, 1.0))); i }),
+        // the non-binary variable is used although its monomials would cancel under x^k = x (which does not hold for it): x1*x1 - x1 is 2 at x1 = 2
+        ("integer variable used in x1*x1 - x1 + x2 (polynomial)", { let mut i = base(); i.decision_variables[0] = dv(1, Kind::Integer, Some((0.0, 3.0)));
+            i.objective = Some(f_of(F::Polynomial(poly(&[(&[1, 1], 1.0), (&[1], -1.0), (&[2], 1.0)])))); i }),
+        ("integer variable used in x1*x1 - x1 (quadratic)", { let mut i = base(); i.decision_variables[0] = dv(1, Kind::Integer, Some((0.0, 3.0)));
+            i.objective = Some(f_of(F::Quadratic(quad(&[(1, 1, 1.0)], Some(lin(&[(1, -1.0)], 0.0)))))); i }),
+        ("continuous variable used in x3*x3*x3 - x3*x3 (polynomial)", { let mut i = base(); i.decision_variables[2] = dv(3, Kind::Continuous, Some((0.0, 1.0)));
+            i.objective = Some(f_of(F::Polynomial(poly(&[(&[3, 3, 3], 1.0), (&[3, 3], -1.0), (&[1, 2], 2.0)])))); i }),
     ];
     for (k, (name, i)) in cases.iter().enumerate() {
         n += 1; d.insert((100 + k, 0));
@@ -571,6 +579,34 @@ pub fn c02() -> Outcome {
         if let Err(e) = check("variable + variable", &Function::from(&x + &y), &fx, Some(&fy), &|a, b| a + b) { fail!(n, d, "{e}"); }
         if let Err(e) = check("variable * variable", &Function::from(&x * &y), &fx, Some(&fy), &|a, b| a * b) { fail!(n, d, "{e}"); }
         if let Err(e) = check("parameter + variable", &Function::from(&p + &x), &fp, Some(&fx), &|a, b| a + b) { fail!(n, d, "{e}"); }
+    }
+    // operands of very different scale, same kind on both sides (no upcast, whose collect drops coefficients <= EPSILON - the documented dropping): a coefficient
+    // below machine epsilon is still a coefficient of the operand, the product's coefficient (1.0) is not small, and a * b must equal b * a
+    {
+        let tiny = 1e-16; let huge = 1e16;
+        let small: Vec<Function> = vec![
+            f_of(F::Linear(lin(&[(1, tiny)], 0.0))),
+            f_of(F::Quadratic(quad(&[(1, 2, tiny)], None))),
+            f_of(F::Quadratic(quad(&[(1, 2, tiny)], Some(lin(&[], 0.0))))),
+            f_of(F::Polynomial(poly(&[(&[1, 2, 3], tiny)]))),
+        ];
+        let large: Vec<Function> = vec![
+            f_of(F::Linear(lin(&[(2, huge)], 0.0))),
+            f_of(F::Quadratic(quad(&[(3, 3, huge)], None))),
+            f_of(F::Polynomial(poly(&[(&[1, 1, 1], huge)]))),
+        ];
+        for (ai, a) in small.iter().enumerate() {
+            for (bi, b) in large.iter().enumerate() {
+                if deg(a) != deg(b) { continue; }
+                n += 1; d.insert((1000 + ai, bi));
+                if let Err(e) = check("product (tiny * huge)", &(a.clone() * b.clone()), a, Some(b), &|x, y| x * y) { fail!(n, d, "{e}"); }
+                if let Err(e) = check("product (huge * tiny)", &(b.clone() * a.clone()), b, Some(a), &|x, y| x * y) { fail!(n, d, "{e}"); }
+                if let (Some(F::Linear(x)), Some(F::Linear(y))) = (a.function.clone(), b.function.clone()) {
+                    if let Err(e) = check("Linear * Linear (tiny * huge)", &Function::from(x.clone() * y.clone()), a, Some(b), &|p, q| p * q) { fail!(n, d, "{e}"); }
+                    if let Err(e) = check("Linear * Linear (huge * tiny)", &Function::from(y * x), b, Some(a), &|p, q| p * q) { fail!(n, d, "{e}"); }
+                }
+            }
+        }
     }
     Outcome { cases: n, distinct: d.len(), fail: None }
 }
